@@ -481,7 +481,13 @@ func (g *Gen) calleeEnv(names map[string]Term, ins ssa.Instruction) *Env {
 	for k, v := range names {
 		e.names[k] = v
 	}
-	for n, cell := range g.cloBind {
+	var cbNames []string
+	for n := range g.cloBind {
+		cbNames = append(cbNames, n)
+	}
+	sort.Strings(cbNames)
+	for _, n := range cbNames {
+		cell := g.cloBind[n]
 		if _, shadow := e.names[n]; shadow {
 			continue
 		}
